@@ -1,11 +1,13 @@
 import PegVerif.Exec.ErrDriver
 import PegVerif.Exec.Driver
 import PegVerif.Exec.Run
+import PegVerif.Exec.SetDriver
 def main (args : List String) : IO UInt32 := do
   match args with
   | ["err"] => PegVerif.errMain
   | ["emit"] => PegVerif.emitMain
   | ["run"] => PegVerif.runMain
+  | ["set"] => PegVerif.setMain
   | _ =>
     IO.eprintln s!"pegmodel: unknown command {args}"
     return 2
